@@ -37,6 +37,7 @@ Definition c10_hist : N :=
   if amb then 0 else
   let c := fold_left (fun acc cr => if negb (acc =? 0) then acc else c10_crash cr) (h_crashes h) 0 in
   if negb (c =? 0) then c else
+  if negb (h_lmdb_ok h) then 70 else   (* the in-memory store and LMDB disagree after the same deliveries *)
   if existsb (fun op => match op with HDeliver _ _ o _ => (ob_commits o =? 0) && negb (ob_notrace o) end) (h_ops h) then 60
   else if existsb (fun op => match op with HDeliver _ _ o _ => 1 <? ob_commits o end) (h_ops h) then 61   (* one delivery = at most one commit *)
   else 0.
